@@ -73,6 +73,8 @@ def build(case, rng, pre):
             compute_val(m)
     if pre.get("compute_mid"):
         compute_val(m)
+    if pre.get("to_mid"):
+        m.to("cpu")          # moving an already-updated metric (even to the same device) must not redefine its defaults
     if pre.get("load_mid"):
         # a checkpoint round trip inside the history: restore into the SAME object
         m.load_state_dict(m.state_dict())
@@ -93,7 +95,7 @@ def build(case, rng, pre):
 
 def gen_pre(rng):
     return {"updates": rng.choice([0, 1, 2, 2, 4, 7]), "merge": rng.choice([0, 0, 1, 2]), "reset_mid": rng.random() < 0.15,
-            "compute_mid": rng.random() < 0.5, "load_mid": rng.random() < 0.3}
+            "compute_mid": rng.random() < 0.5, "load_mid": rng.random() < 0.3, "to_mid": rng.random() < 0.3}
 
 
 def same(a, b):
@@ -126,19 +128,36 @@ def c09_case(case, seed, how, pre, ncont):
         return None          # the lambda preproc of the test embedding is not picklable (harness artefact)
     m = build(case, rng, pre)
     c = restore(case, m, how)
-    d = same(compute_val(m), compute_val(c))
-    if d:
-        return f"compute() differs right after {how}: {d}"
+    if seed % 2 == 0:       # half of the trials leave the restored copy un-computed (result caches stay cold on one side)
+        d = same(compute_val(m), compute_val(c))
+        if d:
+            return f"compute() differs right after {how}: {d}"
     d = same(registered_state(m), registered_state(c))
     if d:
         return f"registered states (values, shapes, dtypes) differ right after {how}: {d}"
     cont = gen_updates(rng, call, ncont)
+    if seed % 4 == 1:
+        cont = []           # go straight to the merge continuation
     for k, u in enumerate(cont):
         do_update(m, u)
         do_update(c, u)
         d = same(compute_val(m), compute_val(c))
         if d:
             return f"compute() differs after {how} and {k + 1} identical further update(s): {d}"
+    # merge identical peers INTO the original and into the copy, then compute and update again
+    for k in (1, 2):
+        prng = random.Random(seed + k)
+        peers1 = [build(case, random.Random(seed * 7 + j), {"updates": 1 + j, "merge": 0}) for j in range(k)]
+        peers2 = [build(case, random.Random(seed * 7 + j), {"updates": 1 + j, "merge": 0}) for j in range(k)]
+        m.merge_state(peers1); c.merge_state(peers2)
+        d = same(compute_val(m), compute_val(c))
+        if d:
+            return f"compute() differs after {how} and merging {k} identical peer(s) into both: {d}"
+        u = call(prng, 2)
+        do_update(m, u); do_update(c, u)
+        d = same(compute_val(m), compute_val(c))
+        if d:
+            return f"compute() differs after {how}, a merge and one more identical update: {d}"
     # merge both into identical fresh targets
     o1, o2 = basecalls.make(name, kw, cls), basecalls.make(name, kw, cls)
     o1.merge_state([m]); o2.merge_state([c])
